@@ -107,6 +107,7 @@ struct Args {
     profile_note: String,
     merge_summary: Option<PathBuf>,
     write_summary: Option<PathBuf>,
+    class: Option<String>,
 }
 
 fn parse_args() -> Result<Args, String> {
@@ -131,6 +132,7 @@ fn parse_args() -> Result<Args, String> {
         profile_note: "sim (opt-level 2, debug-assertions on, overflow-checks on)".into(),
         merge_summary: None,
         write_summary: None,
+        class: None,
     };
     let mut it = std::env::args().skip(1);
     a.cmd = it.next().ok_or("usage: semver-dst <check|replay> ...")?;
@@ -156,6 +158,7 @@ fn parse_args() -> Result<Args, String> {
             "--profile-note" => a.profile_note = val("--profile-note")?,
             "--merge-summary" => a.merge_summary = Some(PathBuf::from(val("--merge-summary")?)),
             "--write-summary" => a.write_summary = Some(PathBuf::from(val("--write-summary")?)),
+            "--class" => a.class = Some(val("--class")?),
             other => return Err(format!("unknown argument {:?}", other)),
         }
     }
@@ -186,6 +189,11 @@ fn main() {
         "check" => cmd_check(&args),
         "replay" => cmd_replay(&args),
         "probe" => cmd_probe(),
+        "exec-history" => match &args.replay {
+            Some(p) => sim::exec_history(p),
+            None => 2,
+        },
+        "sequential-find" => cmd_sequential_find(&args),
         other => {
             eprintln!("HARNESS-ERROR: unknown command {:?}", other);
             2
@@ -223,6 +231,28 @@ fn cmd_probe() -> i32 {
         }
     }
     0
+}
+
+fn default_budget(prop: Prop, thorough: bool) -> (u64, usize) {
+    // a version run costs ~4 us, a range run ~20 us (probe versions around every bound)
+    let runs = match (prop, thorough) {
+        (Prop::C12, false) => 1_000_000,
+        (Prop::C12, true) => 40_000_000,
+        (Prop::C13, false) => 400_000,
+        (Prop::C13, true) => 10_000_000,
+    };
+    (runs, if thorough { 1500 } else { 24 })
+}
+
+fn cmd_sequential_find(args: &Args) -> i32 {
+    let (prop, class, out) = match (args.prop, &args.class, &args.replay) {
+        (Some(p), Some(c), Some(o)) => (p, c.clone(), o.clone()),
+        _ => return 2,
+    };
+    let (druns, dextra) = default_budget(prop, false);
+    let runs = args.runs.unwrap_or(druns);
+    let values = sim::corpus_values(prop, args.enum_values.unwrap_or(dextra), args.seed);
+    sim::sequential_find(prop, args.seed, runs, &values, &class, 4096, &out)
 }
 
 fn cmd_replay(args: &Args) -> i32 {
@@ -286,14 +316,9 @@ fn cmd_check(args: &Args) -> i32 {
     };
     let t0 = Instant::now();
     let thorough = args.tier == "thorough";
-    // budgets: a version run costs ~4 us, a range run ~20 us (probe versions around every bound)
-    let runs = args.runs.unwrap_or(match (prop, thorough) {
-        (Prop::C12, false) => 1_000_000,
-        (Prop::C12, true) => 40_000_000,
-        (Prop::C13, false) => 400_000,
-        (Prop::C13, true) => 10_000_000,
-    });
-    let enum_extra = args.enum_values.unwrap_or(if thorough { 1500 } else { 24 });
+    let (druns, dextra) = default_budget(prop, thorough);
+    let runs = args.runs.unwrap_or(druns);
+    let enum_extra = args.enum_values.unwrap_or(dextra);
     println!(
         "semver-dst: property={} tier={} VERIF_SEED={} workers={} profile={}",
         prop.id(), args.tier, args.seed, args.workers, args.profile_note
@@ -408,11 +433,15 @@ fn cmd_check(args: &Args) -> i32 {
     real.sort_by(|a, b| (a.origin, a.index).cmp(&(b.origin, b.index)));
     let mut seen_classes: Vec<String> = Vec::new();
     let _ = std::fs::create_dir_all(&args.replay_dir);
+    let mut class_order: Vec<String> = Vec::new();
     for f in &real {
-        if seen_classes.contains(&f.violation.class) || seen_classes.len() >= 6 {
-            continue;
+        if !class_order.contains(&f.violation.class) {
+            class_order.push(f.violation.class.clone());
         }
-        seen_classes.push(f.violation.class.clone());
+    }
+    let mut pending: Vec<(bool, ReplayFile, &'static str, u64)> = Vec::new();
+    for class in class_order.iter().take(6) {
+        seen_classes.push(class.clone());
         let ctx = sim::ReproCtx {
             prop,
             search_base: args.seed,
@@ -420,7 +449,28 @@ fn cmd_check(args: &Args) -> i32 {
             fault_free_only: args.fault_free_only,
             enum_values: &values,
         };
-        let repro = sim::reproduce(f, &ctx);
+        // the first occurrence that replays exactly is the one reported; an occurrence that
+        // depends on what another thread did to shared state does not replay, so try the next
+        let candidates: Vec<&Found> = real.iter().filter(|f| f.violation.class == *class).take(5).collect();
+        let mut chosen: Option<(&Found, sim::Repro)> = None;
+        for f in &candidates {
+            let r = sim::reproduce(f, &ctx);
+            let ok = r.reproducible;
+            if chosen.is_none() || ok {
+                chosen = Some((*f, r));
+            }
+            if ok {
+                break;
+            }
+        }
+        let (f, mut repro) = chosen.expect("class has at least one occurrence");
+        if !repro.reproducible {
+            // state shared between threads: only a fresh single-threaded process is a fresh start
+            let quick_runs = runs.min(default_budget(prop, false).0);
+            if let Some(r) = sim::reproduce_in_processes(prop, args.seed, quick_runs, enum_extra.min(24), class) {
+                repro = r;
+            }
+        }
         // re-run to get the final wording of the violation
         let v = sim::in_fresh_thread(|| {
             let mut scratch = Stats::default();
@@ -434,9 +484,7 @@ fn cmd_check(args: &Args) -> i32 {
         .find(|v| v.class == f.violation.class)
         .cloned()
         .unwrap_or_else(|| f.violation.clone());
-        if !repro.note.is_empty() {
-            println!("note: {} - {}", f.violation.class, repro.note);
-        }
+        let reproducible = repro.reproducible;
         let rf = ReplayFile {
             property: prop.id().to_string(),
             origin: f.origin.to_string(),
@@ -450,13 +498,22 @@ fn cmd_check(args: &Args) -> i32 {
             original_plan: Some(f.plan.clone()),
             note: repro.note,
         };
-        let path = args.replay_dir.join(format!(
-            "{}-{}-{}-{}.json",
-            prop.id(),
-            args.seed,
-            f.index,
-            v.class
-        ));
+        pending.push((reproducible, rf, f.origin, f.index));
+    }
+    // occurrences that replay exactly are reported with their replay file.  A class that only
+    // ever showed through state another thread left behind cannot be replayed; it is reported
+    // with a VIOLATION line only if nothing replayable was found, otherwise as a note.
+    let any_replayable = pending.iter().any(|p| p.0);
+    for (reproducible, rf, origin, index) in &pending {
+        let v = &rf.violation;
+        if !rf.note.is_empty() {
+            println!("note: {} - {}", v.class, rf.note);
+        }
+        if !reproducible && any_replayable {
+            println!("also observed (not replayable, several threads involved): {} [{} #{}] {}", v.class, origin, index, v.detail);
+            continue;
+        }
+        let path = args.replay_dir.join(format!("{}-{}-{}-{}.json", prop.id(), args.seed, index, v.class));
         match std::fs::write(&path, serde_json::to_string_pretty(&rf).unwrap()) {
             Ok(()) => {}
             Err(e) => {
@@ -464,7 +521,7 @@ fn cmd_check(args: &Args) -> i32 {
                 return 2;
             }
         }
-        println!("violated: {} [{} #{}] {}", v.class, f.origin, f.index, v.detail);
+        println!("violated: {} [{} #{}] {}", v.class, origin, index, v.detail);
         println!("VIOLATION property={} replay={}", prop.id(), path.display());
         reported.push((v.class.clone(), path));
     }
